@@ -39,7 +39,7 @@ StringTokenizer::StringTokenizer(const std::string& s, const std::string& delimi
     string::size_type index = 0;
     while (index != s.npos)
     {
-      string::size_type newIndex = s.find(delimiters, index);
+      string::size_type newIndex = delimiters.empty() ? s.npos : s.find(delimiters, index);
       if (newIndex != s.npos)
       {
         tokens_.push_back(s.substr(index, newIndex - index));
